@@ -1,16 +1,257 @@
-(* Properties_C03: statements only.  C03 -- message ownership, memory safety and no leaks
-   for any API usage.  (UNDER CONSTRUCTION: the per-protocol theorems are added as their
-   laws are proved.) *)
+(* Properties_C03: statements only.
+   C03 -- message ownership, memory safety and no leaks for any API usage.
+
+   The ownership LEDGER (Ledger/Ledger.v, defined once): message id -> reference count +
+   multiset of owners {application, user aio (pending / completed), protocol slot, pipe
+   (transport), lost}; events Alloc / Clone / Give / Free.  [replay_step] replays ONE STEP
+   OF ANY PROTOCOL MODEL -- its operation and its outputs (Complete / TranSend / Free of
+   Proto/Common.v) -- into the ledger, using the protocol's [view] (Ledger/Views.v: which
+   messages of the state are references, the clones a step makes, frees the models do not
+   output) and CHECKS the result against the new state: it returns None if a reference is
+   freed / handed on / cloned by a non-holder (double free, use after free) or if the
+   library-side holdings differ from what the new state stands for (leak, duplication).
+
+   Proved (this file): for all op histories -- every entry point and callback in any order,
+   option changes at every point, cancels, pipe loss, closes -- of every protocol model the
+   replay never fails, the ledger stays balanced (reference count = number of owners > 0),
+   a failed send leaves its message attached to the aio and the caller's, a successful send
+   hands the reference to the library, a successful receive hands exactly one to the caller,
+   every library-side reference that came in went out exactly once or is still held, and
+   after the close sequence + the fini frees the library holds NOTHING.
+
+   LEVEL.  These are theorems about the models.  MEMORY SAFETY ITSELF IS PARTIAL: the models
+   have no addresses; a use-after-free / out-of-bounds access inside code the models do not
+   cover is only OBSERVED (ASan/UBSan + accounting allocator on the generated programs,
+   checks/c03.py) -- support for the correspondence, not a theorem.  Identity of a reference
+   inside a protocol is its BODY BYTES (the models are value based; no protocol rewrites the
+   body of a message it owns): messages with equal bodies are interchangeable there.
+
+   NOT YET HERE: cooked REQ's close-drain part. *)
 From Coq Require Import List Arith NArith Bool.
-From NngV Require Import Proto.Common Proto.PushModel Proto.PullModel Proto.PushProofs
-  Ledger.Ledger Ledger.LedgerProofs Ledger.LawTac Ledger.Views Ledger.OwnPipeline.
+From NngV Require Import Gen.Consts Proto.Common Ledger.Ledger Ledger.LedgerProofs Ledger.LawTac Ledger.Views Ledger.LedgerThms
+  Ledger.SizedFree Ledger.C03Lemmas.
+From NngV Require Proto.PushModel Proto.PullModel Proto.PubModel Proto.SubModel Proto.XsubModel Proto.PairModel
+  Proto.PairGuard Proto.BusModel Proto.XReqModel Proto.XRepModel Proto.SurveyModel Proto.XSurveyModel Proto.XRespondModel
+  Proto.PushProofs Proto.PubSubProofs Proto.PubSubProofs3 Proto.BusProofs Queue.LmqModel Queue.MsgqModel Msg.MsgModel IdMap.IdMapModel
+  Proto.RepModel Proto.RespondModel
+  Ledger.OwnPipeline Ledger.OwnPipelineClose Ledger.OwnPubSub Ledger.OwnPairBus Ledger.OwnSurvey Ledger.OwnXReqRep Ledger.OwnRepResp.
 Import ListNotations.
 
-(* the ledger: every event keeps "reference count = number of owners > 0, ids unique" *)
+(* ================= 1. the ledger itself ================= *)
+(* every event keeps: ids unique, reference count = number of owners, > 0 while the object lives *)
 Theorem ledger_event_keeps_balance : forall l ev l', balanced l -> apply_ev l ev = Some l' -> balanced l'.
 Proof. exact apply_ev_balanced. Qed.
 Print Assumptions ledger_event_keeps_balance.
 
+(* a free / hand-over / clone is accepted only from a holder of a reference to that object *)
 Theorem ledger_free_needs_owner : forall l i o l', apply_ev l (LFree i o) = Some l' -> holds l i o.
 Proof. exact free_needs_owner. Qed.
 Print Assumptions ledger_free_needs_owner.
+Theorem ledger_give_needs_owner : forall l i from to l', apply_ev l (LGive i from to) = Some l' -> holds l i from.
+Proof. exact give_needs_owner. Qed.
+Print Assumptions ledger_give_needs_owner.
+Theorem ledger_clone_needs_owner : forall l i by_ to l', apply_ev l (LClone i by_ to) = Some l' -> holds l i by_.
+Proof. exact clone_needs_owner. Qed.
+Print Assumptions ledger_clone_needs_owner.
+
+(* no double free: the second free of an object that had one reference is rejected *)
+Theorem ledger_double_free_rejected : forall l i o l',
+  balanced l -> apply_ev l (LFree i o) = Some l' ->
+  (forall e, In e l -> e_id e = i -> e_rc e = 1) -> apply_ev l' (LFree i o) = None.
+Proof. exact double_free_rejected. Qed.
+Print Assumptions ledger_double_free_rejected.
+
+(* ================= 2. uniformly: what the law of a protocol gives ================= *)
+(* [proto_law V step Inv ok]: the invariant is kept and every step satisfies the ledger's
+   weighted conservation equation (for every weight F on (owner, body) pairs) and clones only
+   what it holds.  From it, for EVERY history that respects the environment contract [ok]: *)
+Theorem ledger_balanced : forall St (V : view St) step Inv ok, proto_law V step Inv ok ->
+  forall ops s L, Inv s -> linv V L s -> ops_ok step ok s ops ->
+  exists L', replay_run V step L s ops = Some (L', run step s ops) /\
+    balanced (ls_led L') /\ mseq (lib_refs (ls_led L')) (omega V (run step s ops)) /\
+    lib_ref_count (ls_led L') = length (omega V (run step s ops)).
+Proof. exact @ledger_balanced_run. Qed.
+Print Assumptions ledger_balanced.
+
+(* a failed send (any non-zero result: refused, cancelled, timed out, closed) leaves the message
+   attached to the aio, and it is the caller's again (owner OBack a) *)
+Theorem failed_send_leaves_message_with_caller : forall St (V : view St) step Inv ok, proto_law V step Inv ok ->
+  forall L s o s' outs a rv k,
+  Inv s -> ok s o -> linv V L s -> step s o = (s', outs) ->
+  In (Complete a rv None) outs -> rv <> 0%N -> send_key V s o a = Some k -> has_id a (v_detach V s o) = false ->
+  exists L', replay_step V L s o s' outs = Some L' /\ linv V L' s' /\ In (OBack a, k) (refs (ls_led L')).
+Proof. exact @failed_send_keeps_message. Qed.
+Print Assumptions failed_send_leaves_message_with_caller.
+
+(* a successful send hands the reference that was attached to the aio to the library *)
+Theorem successful_send_transfers_to_library : forall St (V : view St) s o outs a k,
+  In (Complete a E_OK None) outs -> send_key V s o a = Some k ->
+  In (AMove (OAio a) k OProto) (step_evs V s o outs).
+Proof. exact @successful_send_transfers. Qed.
+Print Assumptions successful_send_transfers_to_library.
+
+(* a successful receive hands exactly one protocol reference to the caller, attached to its aio *)
+Theorem successful_recv_transfers_one_reference : forall St (V : view St) step Inv ok, proto_law V step Inv ok ->
+  forall L s o s' outs a m,
+  Inv s -> ok s o -> linv V L s -> step s o = (s', outs) -> In (Complete a E_OK (Some m)) outs ->
+  exists L', replay_step V L s o s' outs = Some L' /\ linv V L' s' /\
+    In (AMove OProto (body m) (OBack a)) (step_evs V s o outs) /\ In (OBack a, body m) (refs (ls_led L')).
+Proof. exact @successful_recv_transfers. Qed.
+Print Assumptions successful_recv_transfers_one_reference.
+
+(* released exactly once: over a whole history, per (owner, body), what the library acquired
+   equals what it released plus what it still holds *)
+Theorem library_releases_exactly_once : forall St (V : view St) step Inv ok, proto_law V step Inv ok ->
+  forall ops s, Inv s -> ops_ok step ok s ops ->
+  forall x, lib_owner (fst x) = true ->
+    cnt x (omega V (run step s ops)) + cnt x (dels (hist_evs V step s ops)) = cnt x (omega V s) + cnt x (adds (hist_evs V step s ops)).
+Proof. exact @lib_balance_run. Qed.
+Print Assumptions library_releases_exactly_once.
+
+(* once nothing is in flight or queued on an aio and only queue contents remain, the fini frees
+   leave the library with no reference at all *)
+Theorem fini_frees_leave_nothing : forall St (V : view St) L s, linv V L s -> drained V s ->
+  exists L', do_aevs L (fini_evs V s) = Some L' /\ balanced (ls_led L') /\ lib_refs (ls_led L') = [].
+Proof. exact @fini_clears. Qed.
+Print Assumptions fini_frees_leave_nothing.
+
+(* ================= 3. per protocol ================= *)
+(* [ledger_ok V step init ok script] (Ledger/C03Lemmas.v): for every history from the initial state
+   that respects [ok] -- the replay never fails, the ledger is balanced and equals the state's view;
+   the close sequence [script] (pipe closes, failing completions of the sends in flight, context
+   closes, socket close) is allowed and replays; the fini frees then leave NO library-side reference. *)
+Theorem pull_ledger_balanced : ledger_ok view_pull PullModel.pull_step PullModel.pull_init (fun _ _ => True) OwnPipelineClose.pull_close_script.
+Proof. exact pull_ledger_ok. Qed.
+Print Assumptions pull_ledger_balanced.
+Theorem push_ledger_balanced : ledger_ok view_push PushModel.push_step PushModel.push_init OwnPipeline.push_ok OwnPipelineClose.push_close_script.
+Proof. exact push_ledger_ok. Qed.
+Print Assumptions push_ledger_balanced.
+Theorem pub_ledger_balanced : ledger_ok view_pub PubModel.pub_step PubModel.pub_init PubSubProofs3.pub_op_ok OwnPubSub.pub_close_script.
+Proof. exact pub_ledger_ok. Qed.
+Print Assumptions pub_ledger_balanced.
+Theorem sub_ledger_balanced : forall fixed,
+  ledger_ok view_sub (SubModel.sub_step fixed) SubModel.sub_init PubSubProofs.sub_op_ok OwnPubSub.sub_close_script.
+Proof. exact sub_ledger_ok. Qed.
+Print Assumptions sub_ledger_balanced.
+Theorem xsub_ledger_balanced : forall mq_fixed rs_fixed,
+  ledger_ok view_xsub (XsubModel.xsub_step mq_fixed rs_fixed) XsubModel.xsub_init OwnPubSub.xsub_op_ok OwnPubSub.xsub_close_script.
+Proof. exact xsub_ledger_ok. Qed.
+Print Assumptions xsub_ledger_balanced.
+(* PAIR0, PAIR1 cooked and raw (k), with and without the two repairs of pair.c (fx, fs) *)
+Theorem pair_ledger_balanced : forall k fx fs,
+  ledger_ok (VPair.view k) (PairGuard.pair_step_g k fx fs) PairModel.pair_init OwnPairBus.pair_ok OwnPairBus.pair_close_script.
+Proof. exact pair_ledger_ok. Qed.
+Print Assumptions pair_ledger_balanced.
+(* BUS cooked and raw, both forms of bus0_sock_send (fixed) and both orders of its first statements (keep) *)
+Theorem bus_ledger_balanced : forall fixed keep raw,
+  ledger_ok (VBus.view fixed keep) (BusModel.bus_step fixed) (BusModel.bus_init raw) BusProofs.op_ok OwnPairBus.bus_close_script.
+Proof. exact bus_ledger_ok. Qed.
+Print Assumptions bus_ledger_balanced.
+Theorem surveyor_ledger_balanced : forall nbfix,
+  ledger_ok view_surv (SurveyModel.surv_step nbfix) SurveyModel.surv_init OwnSurvey.surv_ok OwnSurvey.surv_close_script.
+Proof. exact surv_ledger_ok. Qed.
+Print Assumptions surveyor_ledger_balanced.
+Theorem xsurveyor_ledger_balanced : forall fx,
+  ledger_ok (VXsurv.view fx) (XSurveyModel.xsurv_step fx) XSurveyModel.xsurv_init OwnSurvey.xsurv_ok OwnSurvey.xsurv_close_script.
+Proof. exact xsurv_ledger_ok. Qed.
+Print Assumptions xsurveyor_ledger_balanced.
+Theorem xrespondent_ledger_balanced : forall fx,
+  ledger_ok view_xresp (XRespondModel.xresp_step fx) XRespondModel.xresp_init OwnSurvey.xresp_ok OwnSurvey.xresp_close_script.
+Proof. exact xresp_ledger_ok. Qed.
+Print Assumptions xrespondent_ledger_balanced.
+Theorem xreq_ledger_balanced : forall mf,
+  ledger_ok view_xreq (XReqModel.xreq_step mf) XReqModel.xreq_init OwnXReqRep.xreq_ok OwnXReqRep.xreq_close_script.
+Proof. exact xreq_ledger_ok. Qed.
+Print Assumptions xreq_ledger_balanced.
+Theorem xrep_ledger_balanced : forall mf,
+  ledger_ok view_xrep (XRepModel.xrep_step mf) XRepModel.xrep_init OwnXReqRep.xrep_ok OwnXReqRep.xrep_close_script.
+Proof. exact xrep_ledger_ok. Qed.
+Print Assumptions xrep_ledger_balanced.
+
+(* cooked REP and RESPONDENT: for the source with the repair "a send while the context's previous reply
+   still waits for its pipe is refused" (rep.c f74acd0, respond.c 08762d5; flags read from the source) ... *)
+Theorem rep_ledger_balanced : forall pf, RepModel.pf_saio pf = true ->
+  ledger_ok view_rep (RepModel.rep_step pf) RepModel.rep_init OwnRepResp.rep_ok OwnRepResp.rep_close_script.
+Proof. exact rep_ledger_ok. Qed.
+Print Assumptions rep_ledger_balanced.
+Theorem respondent_ledger_balanced : forall fx, RespondModel.rf_sbusy fx = true ->
+  ledger_ok view_resp (RespondModel.resp_step fx) RespondModel.resp_init OwnRepResp.resp_ok OwnRepResp.resp_close_script.
+Proof. exact resp_ledger_ok. Qed.
+Print Assumptions respondent_ledger_balanced.
+Theorem rep_respondent_consts_match : C04_REP_SAIO_FIXED = true /\ C07_RESP_SBUSY_FIXED = true.
+Proof. split; reflexivity. Qed.
+Print Assumptions rep_respondent_consts_match.
+(* ... and without it (the tree as pinned): the second reply overwrites the queued one, whose message
+   leaves the aio's attachment list unaccounted -- the ledger is violated on a concrete history *)
+Theorem rep_ledger_pinned_saio_refuted :
+  exists ops, replay_run view_rep (RepModel.rep_step OwnRepResp.pf_bad) ls_init RepModel.rep_init ops = None.
+Proof. exact OwnRepResp.rep_law_refuted_pinned_saio. Qed.
+Print Assumptions rep_ledger_pinned_saio_refuted.
+Theorem respondent_ledger_pinned_sbusy_refuted :
+  exists ops, replay_run view_resp (RespondModel.resp_step OwnRepResp.rf_bad) ls_init RespondModel.resp_init ops = None.
+Proof. exact OwnRepResp.resp_law_refuted_pinned_sbusy. Qed.
+Print Assumptions respondent_ledger_pinned_sbusy_refuted.
+
+(* ================= 4. BUS: a refused send and its message ================= *)
+(* the order bus0_sock_send had when the tree was pinned (slot emptied, header trimmed, THEN
+   nni_aio_start): a refused non-blocking send completes with NNG_EAGAIN and the message is
+   neither on the aio (no OBack reference) nor the library's nor freed -- it is lost *)
+Theorem bus_failed_send_detaches_refuted :
+  match replay_run (VBus.view false false) (BusModel.bus_step false) ls_init (BusModel.bus_init false) w_bus_ops with
+  | Some (L, s) =>
+      snd (BusModel.bus_step false (fst (BusModel.bus_step false (BusModel.bus_init false) (PPipeStart 1%N BusModel.PROTO_BUS))) (PSend None 7%N true w_bus_msg))
+        = [Complete 7%N E_AGAIN None] /\
+      back_of (ls_led L) 7%N = [] /\ lost_count (ls_led L) = 1 /\ lib_ref_count (ls_led L) = 0
+  | None => False
+  end.
+Proof. exact bus_failed_send_detaches_refuted_w. Qed.
+Print Assumptions bus_failed_send_detaches_refuted.
+
+(* the current source (fix 6932118: nni_aio_start first) -- the flag is read from bus.c on every run *)
+Theorem bus_start_before_detach_consts_match : C03_BUS_START_BEFORE_DETACH = true.
+Proof. reflexivity. Qed.
+Print Assumptions bus_start_before_detach_consts_match.
+Theorem bus_failed_send_keeps_message_holds : forall fixed L s o s' outs a rv k,
+  BusProofs.BInv s -> BusProofs.op_ok s o -> linv (VBus.view fixed C03_BUS_START_BEFORE_DETACH) L s ->
+  BusModel.bus_step fixed s o = (s', outs) ->
+  In (Complete a rv None) outs -> rv <> 0%N -> send_key (VBus.view fixed C03_BUS_START_BEFORE_DETACH) s o a = Some k ->
+  exists L', replay_step (VBus.view fixed C03_BUS_START_BEFORE_DETACH) L s o s' outs = Some L' /\
+    linv (VBus.view fixed C03_BUS_START_BEFORE_DETACH) L' s' /\ In (OBack a, k) (refs (ls_led L')).
+Proof. exact bus_failed_send_keeps. Qed.
+Print Assumptions bus_failed_send_keeps_message_holds.
+
+(* ================= 5. every free names the size of the allocation ================= *)
+(* lmq.c keeps the ring's size in a field of its own: on every history the size handed to
+   nni_free (lmq_alloc cells) is the size of the ring that is freed; lmq_alloc = 0 is the inline buffer *)
+Theorem sized_free_matches_alloc_lmq : forall fixed ops q outs q',
+  lmq_sized q -> LmqModel.lmq_run fixed q ops = Some (outs, q') -> lmq_sized q'.
+Proof. exact lmq_sized_free_matches_alloc. Qed.
+Print Assumptions sized_free_matches_alloc_lmq.
+Theorem sized_free_lmq_init : forall fixed cap fail q, LmqModel.lmq_init fixed cap fail = Some q -> lmq_sized q.
+Proof. exact lmq_init_sized. Qed.
+Print Assumptions sized_free_lmq_init.
+(* msgqueue.c, idhash.c, message.c: their models identify the size field with the length of the
+   modelled buffer, so there the statement is definitional (the accounting allocator checks the C) *)
+Theorem sized_free_matches_alloc_msgq : forall q, MsgqModel.mq_alloc q = length (MsgqModel.mq_cells q).
+Proof. exact msgq_free_size_is_alloc_size. Qed.
+Print Assumptions sized_free_matches_alloc_msgq.
+Theorem sized_free_matches_alloc_idmap : forall m, IdMapModel.id_cap m = length (IdMapModel.id_entries m).
+Proof. exact idmap_free_size_is_alloc_size. Qed.
+Print Assumptions sized_free_matches_alloc_idmap.
+Theorem sized_free_matches_alloc_chunk : forall c, MsgModel.ch_cap c = length (MsgModel.ch_buf c).
+Proof. exact chunk_free_size_is_alloc_size. Qed.
+Print Assumptions sized_free_matches_alloc_chunk.
+
+(* ================= 6. non-vacuity ================= *)
+(* a history on which the ledger works: PUB, two subscribers, two sends (clones), one transport
+   completion, one failed completion, a buffer shrink that frees a queued copy -- the contract
+   holds, the replay succeeds, two references to one object remain *)
+Example ledger_nonvacuous :
+  ops_ok PubModel.pub_step PubSubProofs3.pub_op_ok PubModel.pub_init w_pub_ops /\
+  match replay_run view_pub PubModel.pub_step ls_init PubModel.pub_init w_pub_ops with
+  | Some (L, s) => lib_ref_count (ls_led L) = 2 /\ lib_obj_count (ls_led L) = 1 /\ forallb entry_okb (ls_led L) = true
+  | None => False
+  end.
+Proof. exact ledger_nonvacuous_w. Qed.
+(* the contracts of the other protocols are satisfiable on real exchanges: Examples *_ok_nonvacuous in
+   Ledger/OwnPubSub.v, OwnPairBus.v, OwnSurvey.v, OwnXReqRep.v *)
